@@ -33,6 +33,13 @@ def main():
             sm[sx] = sx + dts * st[(idx + 8) % 10] * gen.Rational(1, 2) + (dts * u if idx % 4 == 0 else 0) + st[(idx + 3) % 10] * st[(idx + 8) % 10] * gen.Rational(1, 8)
         d = gen.Definition(dts, st, [u], [], {a: gen.sympy.sympify(b) for a, b in sm.items()},
                            {"wide0": {"r_a": st[0] + st[8] * st[1], "r_b": st[9] - st[1]}})
+    if k % 4 in (0, 3):
+        # inputs the model declares but never reads (two controls, two calibration values): whatever the generator says about
+        # them must not depend on set iteration order
+        taken = {x.name for x in d.all_symbols()} | {r for rd in d.sensors.values() for r in rd}
+        extra = gen.fresh_names(rng, 4, taken)
+        d.control = list(d.control) + [gen.Symbol(extra[0]), gen.Symbol(extra[1])]
+        d.calibration = list(d.calibration) + [gen.Symbol(extra[2]), gen.Symbol(extra[3])]
     d._kind = "ekf"
     if k % 2 == 1:
         # names that differ only in case (sorting must still be a total order on them)
